@@ -25,7 +25,7 @@ M_ALL = '(self._state.g_st.g_M + self._cache_P)'        # for decryption: g_M is
 VALID = ['self.block_size == 16', '8 <= self._mac_len', 'self._mac_len <= 16',
          'len(self._cache_A) < 16', 'len(self._cache_P) < 16',
          'self._mac_tag is None ==> len(self._state.g_st.g_A) % 16 == 0',
-         'self._mac_tag is None ==> len(self._state.g_st.g_M) % 16 == 0',
+         '("encrypt" in self._next or "decrypt" in self._next) ==> len(self._state.g_st.g_M) % 16 == 0',   # until the finaliser has run
          'self._mac_tag is not None ==> len(self._mac_tag) == self._mac_len',
          '("digest" in self._next or "verify" in self._next) ==> self._cache_P == b""',
          '"update" in self._next ==> self._state.g_st.g_M == b""',
@@ -126,23 +126,35 @@ def registry(nxt='all', data='bytes', direction='enc'):
     fn = reg.overrides['native.ocblib.OCB_%scrypt' % ('de' if dec else 'en')]
     OUT = 'spec.aead2.ocb_crypt(%sg_id, len(old(%sg_M)), %%s, %s)' % (ST, ST, dec)
     OUT16 = 'spec.aead2.ocb_crypt(%sg_id, len(old(%sg_M)) + 16, %%s, %s)' % (ST, ST, dec)
-    ALLIN = '(old(self._cache_P) + bytes(in_data))'
     K = 'len(%sg_M) - len(old(%sg_M))' % (ST, ST)          # bytes handed to the C code by this call
-    # the output: one C call on the whole blocks of pending + data; when a cached partial block is completed, that block is a C call of its own
-    # (how the pieces compose over positions is the native part: position-indexed, ASSUMED/bounded)
-    TWO = 'len(old(self._cache_P)) > 0 and len(old(self._cache_P)) + len(in_data) >= 16'
-    PIECES = '((%s + %s) if (%s) else %s)' % (OUT % ('%s[:16]' % ALLIN), OUT16 % ('%s[16:%s]' % (ALLIN, K)), TWO, OUT % ('%s[:%s]' % (ALLIN, K)))
-    # _transcrypt (C09): with data: pending + data is cut at the last block boundary, the whole blocks go to C (output returned), the rest is
-    # cached; with None (finaliser): the cached rest is processed as the final partial block and the cache is emptied
+    D = 'bytes(in_data)'
+    F = '(16 - len(old(self._cache_P)))'                   # bytes of in_data that complete the cached block
+    # three cases (pending = old _cache_P): (1) pending block completed: that block is a C call of its own, then the whole blocks of the rest;
+    # (2) nothing pending: the whole blocks of the data; (3) still less than a block: nothing reaches C.  How the pieces compose over
+    # positions is the native part (position-indexed, ASSUMED/bounded).
+    G3 = '(in_data is not None and len(old(self._cache_P)) > 0 and len(old(self._cache_P)) + len(in_data) >= 16) ==> '
+    G1 = '(in_data is not None and len(old(self._cache_P)) == 0) ==> '
+    G2 = '(in_data is not None and len(old(self._cache_P)) > 0 and len(old(self._cache_P)) + len(in_data) < 16) ==> '
+    KT = '(len(old(self._cache_P)) + len(in_data)) // 16 * 16'
     TR_PRE = ['len(self._cache_P) < 16', 'len(%sg_M) %% 16 == 0' % ST]
+    ens = {'final': 'in_data is None ==> (result == %s and self._cache_P == b"" and %sg_M == old(%sg_M) + %s)'
+                    % (OUT % 'old(self._cache_P)', ST, ST, 'result' if dec else 'old(self._cache_P)'),
+           'cut': 'in_data is not None ==> %s == %s' % (K, KT),
+           'out3': G3 + 'result == %s + %s' % (OUT % ('old(self._cache_P) + %s[:%s]' % (D, F)), OUT16 % ('%s[%s:][:%s - 16]' % (D, F, KT))),
+           'cache3': G3 + 'self._cache_P == %s[%s:][%s - 16:]' % (D, F, KT),
+           'out1': G1 + 'result == %s' % (OUT % ('%s[:%s]' % (D, KT))),
+           'cache1': G1 + 'self._cache_P == %s[%s:]' % (D, KT),
+           'out2': G2 + 'result == b""',
+           'cache2': G2 + 'self._cache_P == old(self._cache_P) + %s' % D,
+           'cache': 'len(self._cache_P) < 16'}
+    if dec:
+        ens['msg'] = 'in_data is not None ==> %sg_M == old(%sg_M) + result' % (ST, ST)
+    else:
+        ens['msg3'] = G3 + '%sg_M == old(%sg_M) + old(self._cache_P) + %s[:%s] + %s[%s:][:%s - 16]' % (ST, ST, D, F, D, F, KT)
+        ens['msg1'] = G1 + '%sg_M == old(%sg_M) + %s[:%s]' % (ST, ST, D, KT)
+        ens['stream'] = 'in_data is not None ==> %sg_M + self._cache_P == old(%sg_M) + old(self._cache_P) + %s' % (ST, ST, D)
     reg.add(Contract(C + '._transcrypt', params={'in_data': data + '|none', 'trans_func': ('const', fn), 'trans_desc': 'str'}, requires=TR_PRE, raises={},
-                     ensures={'final': 'in_data is None ==> (result == %s and self._cache_P == b"" and %sg_M == old(%sg_M) + %s)'
-                                       % (OUT % 'old(self._cache_P)', ST, ST, 'result' if dec else 'old(self._cache_P)'),
-                              'cut': 'in_data is not None ==> (%s == (len(old(self._cache_P)) + len(in_data)) // 16 * 16 and self._cache_P == %s[%s:])' % (K, ALLIN, K),
-                              'out': 'in_data is not None ==> result == %s' % PIECES,
-                              'msg': 'in_data is not None ==> %sg_M == old(%sg_M) + %s' % (ST, ST, 'result' if dec else '%s[:%s]' % (ALLIN, K)),
-                              'cache': 'len(self._cache_P) < 16'},
-                     modifies={'self._cache_P': 'bytes', 'self._state.g_st.g_M': 'bytes'}, result='bytes', options={'assume_valid': False}))
+                     ensures=ens, modifies={'self._cache_P': 'bytes', 'self._state.g_st.g_M': 'bytes'}, result='bytes', options={'assume_valid': False}))
     # encrypt / decrypt (C10): argument None = finaliser
     for kind, arg, d in (('encrypt', 'plaintext', False), ('decrypt', 'ciphertext', True)):
         if d != dec:
@@ -156,7 +168,7 @@ def registry(nxt='all', data='bytes', direction='enc'):
                                       # what the native state has absorbed is the plaintext returned so far)
                                       stream=('%s is not None ==> %s == %s + %s' % (arg, M_ALL, M_ALL.replace('self.', 'old(self).'), arg)) if not d else
                                              ('%s is not None ==> (%sg_M == old(%sg_M) + result and len(result) == %s and '
-                                              'self._cache_P == (old(self._cache_P) + bytes(%s))[%s:])' % (arg, ST, ST, K, arg, K))),
+                                              'len(result) + len(self._cache_P) == len(old(self._cache_P)) + len(%s))' % (arg, ST, ST, K, arg))),
                          modifies={'self._next': nxt_t([kind]), 'self._cache_P': 'bytes', 'self._state.g_st.g_M': 'bytes'}, result='bytes'))
     # _compute_mac_tag / digest / verify (C01): flush the cached AAD, 16-byte tag from C, truncated to mac_len; cached afterwards
     TAG = 'spec.aead2.ocb_tag(%sg_id, %s, %sg_M)[:self._mac_len]' % (ST, A_ALL, ST)
@@ -181,9 +193,9 @@ def registry(nxt='all', data='bytes', direction='enc'):
     return reg
 
 
-def _unit(prop, uid, targets, **kw):
+def _unit(prop, uid, targets, timeout_ms=None, **kw):
     from vf.pyunit import pyvc_unit
-    return pyvc_unit(prop, uid, lambda: registry(**kw), targets)
+    return pyvc_unit(prop, uid, lambda: registry(**kw), targets, timeout_ms=timeout_ms)
 
 
 PERMIT = {'update': ('all',), 'encrypt': ('all', 'enc'), 'decrypt': ('all', 'dec'), 'digest': ('all', 'dig'), 'verify': ('all', 'ver')}
@@ -199,9 +211,10 @@ def units(prop, tier):
         for nxt in ('all', 'ver'):
             us.append(_unit(prop, 'ocb.verify.' + nxt, [C + '.verify'], nxt=nxt, data=buf))
     elif prop == 'C09':
-        us.append(_unit(prop, 'ocb.update', [C + '._update', C + '.update'], data=buf))
+        us.append(_unit(prop, 'ocb.update', [C + '._update', C + '.update'], timeout_ms=90000, data=buf))
         for d in ('enc', 'dec'):
-            us.append(_unit(prop, 'ocb.transcrypt.' + d, [C + '._transcrypt_aligned', C + '._transcrypt'], direction=d, data=buf))
+            # three obligations of the block-completing path are word equations that need 10-30 s (cvc5): larger budget, see note below
+            us.append(_unit(prop, 'ocb.transcrypt.' + d, [C + '._transcrypt_aligned', C + '._transcrypt'], timeout_ms=90000, direction=d, data=buf))
     elif prop == 'C10':
         for nxt in NEXTS:
             for d, m in (('enc', 'encrypt'), ('dec', 'decrypt')):
